@@ -30,11 +30,52 @@ type qSpec struct {
 	Make func() bluge.Query
 }
 
-func genQueries(t *Tape, n int, geo bool) []qSpec {
+func genQueries(t *Tape, n int, geo bool) []qSpec { return genQueriesFor(t, n, geo, nil) }
+
+// genQueriesFor aims some of the queries at the given documents: terms of
+// the unique-valued fields (uid, _id) and flat conjunctions / disjunctions of
+// plain terms that one document satisfies - the shapes the bitmap rewrites of
+// index/optimize.go take over, with terms that occur once in a segment.
+func genQueriesFor(t *Tape, n int, geo bool, docs []*DocSpec) []qSpec {
 	w := func() string { return vocab[t.Draw(len(vocab), "q.word")] }
+	pick := func() *DocSpec {
+		if len(docs) == 0 {
+			return &DocSpec{ID: fmt.Sprintf("k%d", t.Draw(6, "q.gid")), UID: fmt.Sprintf("c%d.b%d.o%d", t.Draw(2, "q.gc"), t.Draw(6, "q.gb"), t.Draw(4, "q.go")),
+				Tag: tags[t.Draw(len(tags), "q.tag")], Body: w() + " " + w()}
+		}
+		return docs[t.Draw(len(docs), "q.doc")]
+	}
+	// a plain term (a TermSearcher) that document d satisfies
+	termOf := func(d *DocSpec) qSpec {
+		ws := strings.Fields(d.Body)
+		word := w()
+		if len(ws) > 0 {
+			word = ws[t.Draw(len(ws), "q.dword")]
+		}
+		switch t.Draw(6, "q.tkind") {
+		case 0:
+			x := d.UID
+			return qSpec{"term uid:" + x, func() bluge.Query { return bluge.NewTermQuery(x).SetField("uid") }}
+		case 1:
+			x := d.ID
+			return qSpec{"term _id:" + x, func() bluge.Query { return bluge.NewTermQuery(x).SetField("_id") }}
+		case 2:
+			x := d.Tag
+			return qSpec{"term tag:" + x, func() bluge.Query { return bluge.NewTermQuery(x).SetField("tag") }}
+		case 3:
+			return qSpec{"term _all:" + word, func() bluge.Query { return bluge.NewTermQuery(word).SetField("_all") }}
+		case 4:
+			x := d.Tag
+			return qSpec{"term _all:" + x, func() bluge.Query { return bluge.NewTermQuery(x).SetField("_all") }}
+		default:
+			return qSpec{"term body:" + word, func() bluge.Query { return bluge.NewTermQuery(word).SetField("body") }}
+		}
+	}
 	var leaf func() qSpec
 	leaf = func() qSpec {
-		switch t.Draw(16, "q.kind") {
+		switch t.Draw(18, "q.kind") {
+		case 16, 17:
+			return termOf(pick())
 		case 0:
 			x := w()
 			return qSpec{"term body:" + x, func() bluge.Query { return bluge.NewTermQuery(x).SetField("body") }}
@@ -128,6 +169,41 @@ func genQueries(t *Tape, n int, geo bool) []qSpec {
 	}
 	var gen func(depth int) qSpec
 	gen = func(depth int) qSpec {
+		if depth > 0 && t.Chance(1, 5, "q.flat") {
+			// flat conjunction or disjunction of plain terms, most of them
+			// satisfied by one document
+			d := pick()
+			var cl []qSpec
+			for i, n := 0, 2+t.Draw(3, "q.nflat"); i < n; i++ {
+				if t.Chance(1, 6, "q.other") {
+					cl = append(cl, termOf(pick()))
+				} else {
+					cl = append(cl, termOf(d))
+				}
+			}
+			var ds []string
+			for _, q := range cl {
+				ds = append(ds, q.Desc)
+			}
+			if t.Chance(2, 3, "q.conj") {
+				return qSpec{fmt.Sprintf("bool{must[%s]}", strings.Join(ds, ", ")), func() bluge.Query {
+					b := bluge.NewBooleanQuery()
+					for _, q := range cl {
+						b.AddMust(q.Make())
+					}
+					return b
+				}}
+			}
+			min := t.Draw(2, "q.fmin")
+			return qSpec{fmt.Sprintf("bool{should[%s]>=%d}", strings.Join(ds, ", "), min), func() bluge.Query {
+				b := bluge.NewBooleanQuery()
+				for _, q := range cl {
+					b.AddShould(q.Make())
+				}
+				b.SetMinShould(min)
+				return b
+			}}
+		}
 		if depth == 0 || !t.Chance(2, 5, "q.bool") {
 			return leaf()
 		}
@@ -213,6 +289,7 @@ type answer struct {
 	aggs   string
 	scores string // uid:score under -_score,uid
 	score  map[string]float64
+	noScore string // uids found with scoring turned off (unadorned bitmap rewrites apply then)
 }
 
 func uidAndFields(m *search.DocumentMatch) (string, uint64) {
@@ -320,6 +397,25 @@ func (b *build) answer(q qSpec, withScores bool) (*answer, error) {
 		}
 		a.aggs = strings.Join(parts, " ")
 	}
+	// (4b) scoring turned off: the unadorned conjunction / disjunction
+	// rewrites are only taken in this mode
+	it, err = b.search(bluge.NewTopNSearch(1000, q.Make()).SetScore("none").SortBy([]string{"uid"}))
+	if err != nil {
+		return nil, fmt.Errorf("score-none: %w", err)
+	}
+	var ns []string
+	for {
+		m, err := it.Next()
+		if err != nil {
+			return nil, fmt.Errorf("score-none next: %w", err)
+		}
+		if m == nil {
+			break
+		}
+		u, _ := uidAndFields(m)
+		ns = append(ns, u)
+	}
+	a.noScore = strings.Join(ns, ",")
 	// (5) scores
 	if withScores {
 		it, err = b.search(bluge.NewTopNSearch(1000, q.Make()).SortBy([]string{"-_score", "uid"}))
@@ -391,7 +487,7 @@ func (r *Run) differential(tag string, A *build, withRecipes bool) {
 	docs := append([]*DocSpec(nil), r.chain.Current().Live...)
 	t := r.t
 	if r.diffQueries == nil {
-		r.diffQueries = genQueries(t, 10+t.Draw(10, "diff.nq"), r.k.Geo)
+		r.diffQueries = genQueriesFor(t, 10+t.Draw(10, "diff.nq"), r.k.Geo, docs)
 	}
 	qs := r.diffQueries
 	var builds []*build
@@ -442,6 +538,14 @@ func (r *Run) differential(tag string, A *build, withRecipes bool) {
 				r.fail("layout-stored-fields", fmt.Sprintf("query %s: stored fields of the matches differ between build %s and build one-batch", q.Desc, b.name))
 			case got.sorted != ref.sorted:
 				r.fail("layout-sort-order", fmt.Sprintf("query %s under sort -num,tag,-day,uid: build %s returns [%s], build one-batch [%s]", q.Desc, b.name, got.sorted, ref.sorted))
+			case got.noScore != ref.set && os.Getenv("BSIM_EXPLAIN") != "" && func() bool {
+				for _, d := range docs { // debugging aid: the corpus
+					fmt.Fprintf(os.Stderr, "DOC %s id=%s body=%q tag=%s num=%g day=%d\n", d.UID, d.ID, d.Body, d.Tag, d.Num, d.Day)
+				}
+				return false
+			}():
+			case got.noScore != ref.set:
+				r.fail("layout-match-set", fmt.Sprintf("query %s with scoring turned off: build %s matches {%s}, build one-batch (scored) matches {%s} [same builds the other way round: %s scored {%s}, one-batch unscored {%s}]", q.Desc, b.name, got.noScore, ref.set, b.name, got.set, ref.noScore))
 			case got.aggs != ref.aggs:
 				r.fail("layout-aggregations", fmt.Sprintf("query %s: build %s aggregates %q, build one-batch %q", q.Desc, b.name, got.aggs, ref.aggs))
 			case b.scoreMerged && !sameScores(got, ref) && got.set == ref.set:
